@@ -196,7 +196,10 @@ def run(repo: Repo, rep: Report, tier: str) -> None:
     # the decision / LLR of a call depends only on that call's arguments and the demodulator's configuration:
     # memoised constellation subsets must be keyed by everything that determines them, and the noise variance
     # (or the received symbols) handed in by the caller is never modified in place
+    from .c05 import rule_alias_option
     from .c20 import rule_cache_key, rule_purity
+
+    rule_alias_option(repo, rep, rule="HARD-SOFT")
 
     rule_cache_key(repo, rep, demods)
     rule_purity(repo, rep, demods)
